@@ -35,6 +35,11 @@ Oracle: independent of the model — after every faulted run: `warnings.showwarn
         the plain solve(method') of the same Problem, and of a fresh one built afterwards, must be the optimum / equal a
         twin solved before the attempt; linprog / minimize must receive exactly what they receive for a fresh twin (no
         foreign keyword, equal arrays, x0, tol, options); cached LP data bit-identical to a fresh extraction; globals kept.
+        `start_histories`: on non-convex (double-well) models, where the answer depends on the start: [default solves] →
+        a bound is assigned → a solve that fails / is interrupted (every seam, every class) / gets an explicit x0 /
+        succeeds → the bound is put back (or moved on) → solve() without x0.  At every solve the x0 optyx hands to
+        scipy.optimize.minimize must be the documented default start for the bounds the variables have AT THAT MOMENT
+        (hand formula; equal to what a fresh Problem hands over), `bounds=` the current bounds, the result a fresh twin's.
 """
 from __future__ import annotations
 
@@ -2149,6 +2154,405 @@ def kwargs_histories(rep, rng, n, thorough=False, stop_at_first=False, offset=0)
                 return
 
 
+# ----------------------------------------------------------------------------- the start of every default-start solve
+#
+# HISTORY dimension: a bound is changed, a solve FAILS (any class, any seam), the bound is put back (or moved on to a
+# third value), and the Problem is solved again WITHOUT an explicit x0.  Nothing a failed / interrupted / foreign solve
+# computed for superseded bounds may be reused.  Models: non-convex objectives with several local minima inside the
+# box, so that the answer depends on the start (a stale start is visible in the result) — and a direct oracle that does
+# not need such luck: what optyx hands to scipy.optimize.minimize (observed at the seam `scipy_solver.minimize`):
+#   * x0 of a solve without x0= is the DOCUMENTED default start for the bounds the variables have at that moment,
+#     computed here by hand from the documentation (both bounds: lb + max(1e-4, 1 % of the range), never beyond the
+#     midpoint; lower only: lb + 1e-4; upper only: ub - 1; free: 0) and equal to what a freshly built Problem with
+#     those bounds hands over;
+#   * x0 of a solve with x0= is that x0;
+#   * `bounds=` (when handed over) are the bounds the variables have at that moment;
+#   * an unfaulted solve equals the solve of a freshly built twin with those bounds (same method, same x0);
+#   * a fired fault gives FAILED / the injected exception; hook and recursion limit as before the call.
+
+def _w(vi, c1):
+    """the double well t^4 - 2 t^2 + c1 t of variable vi: local minima near -1 and +1, a local maximum near 0"""
+    return [[1, [[vi, 4]]], [-2, [[vi, 2]]], [c1, [[vi, 1]]]]
+
+
+START_SHAPES = {
+    "W1": {"vars": [["a", -2.0, 2.0, _CONT]], "sense": "min", "obj": _w(0, 0.3), "cons": []},
+    "W2": {"vars": [["a", -2.0, 2.0, _CONT], ["b", -1.5, 2.5, _CONT]], "sense": "min",
+           "obj": _w(0, 0.3) + _w(1, -0.2) + [[0.1, [[0, 1], [1, 1]]]], "cons": []},
+    "W2c": {"vars": [["a", -2.0, 2.0, _CONT], ["b", -1.5, 2.5, _CONT]], "sense": "min",
+            "obj": _w(0, 0.3) + _w(1, -0.2) + [[0.1, [[0, 1], [1, 1]]]],
+            "cons": [[[[1, [[0, 1]]], [1, [[1, 1]]]], "<=", 2.75], [[[1, [[0, 1]]], [-1, [[1, 1]]]], ">=", -3.5]]},
+    "H3": {"vars": [["a", -2.0, None, _CONT], ["b", None, 2.0, _CONT], ["c", None, None, _CONT]], "sense": "min",
+           "obj": _w(0, 0.3) + _w(1, -0.2) + _w(2, 0.1), "cons": []},
+    "M1": {"vars": [["a", -2.0, 2.0, _CONT]], "sense": "max",
+           "obj": [[-1, [[0, 4]]], [2, [[0, 2]]], [-0.3, [[0, 1]]]], "cons": []},
+    "M2c": {"vars": [["a", -2.0, 2.0, _CONT], ["b", None, 2.5, _CONT]], "sense": "max",
+            "obj": [[-1, [[0, 4]]], [2, [[0, 2]]], [-0.3, [[0, 1]]], [-1, [[1, 4]]], [2, [[1, 2]]], [0.2, [[1, 1]]]],
+            "cons": [[[[1, [[0, 1]]], [1, [[1, 1]]]], "<=", 3.5]]},
+}
+START_METHODS = {"W1": ["L-BFGS-B", "SLSQP", "TNC", "auto", "trust-constr", "Newton-CG"],
+                 "W2": ["L-BFGS-B", "SLSQP", "TNC", "auto", "trust-constr"],
+                 "W2c": ["SLSQP", "auto", "trust-constr"],
+                 "H3": ["L-BFGS-B", "SLSQP", "TNC", "auto"],
+                 "M1": ["L-BFGS-B", "SLSQP", "auto", "trust-constr"],
+                 "M2c": ["SLSQP", "auto", "trust-constr"]}
+START_WHERES = ["obj", "grad", "entry", "con", "jac", "hess", "exit", "pre:_compute_initial_point",
+                "pre:_build_solver_cache"]
+START_MIDS = ["fault", "fault", "fault", "fault-x0", "two-faults", "no-fault", "x0-only", "fault-other-method"]
+# dyadic values: putting a bound back gives exactly the float it was
+START_LBS = [None, -3.0, -2.0, -1.5, -0.5, 0.25, 0.5, 1.0]
+START_UBS = [None, 3.0, 2.5, 2.0, 1.5, 0.5, -0.25, -0.5]
+
+
+def documented_start(bounds):
+    """the default initial point as DOCUMENTED, written down by hand (not through optyx)"""
+    out = []
+    for lb, ub in bounds:
+        if lb is not None and ub is not None:
+            out.append(min(lb + max(1e-4, 0.01 * (ub - lb)), (lb + ub) / 2))
+        elif lb is not None:
+            out.append(lb + 1e-4)
+        elif ub is not None:
+            out.append(ub - 1.0)
+        else:
+            out.append(0.0)
+    return out
+
+
+def _norm_bounds(b):
+    """what minimize got as bounds= -> [(lb | None, ub | None)] | None"""
+    if b is None:
+        return None
+    if hasattr(b, "lb") and hasattr(b, "ub"):
+        b = list(zip(np.atleast_1d(b.lb).tolist(), np.atleast_1d(b.ub).tolist()))
+
+    def one(x):
+        return None if x is None or not np.isfinite(x) else float(x)
+    return [(one(lo), one(hi)) for lo, hi in b]
+
+
+def start_solve(P, method, x0=None, fault=None):
+    """one P.solve(method[, x0=]) with the real SciPy; everything optyx hands to `scipy_solver.minimize` is recorded,
+    the fault [where, k, class name] is injected at the seams only (k-th obj / grad / con / jac / hess evaluation,
+    solver entry / exit, a helper before the solver)"""
+    import optyx.solvers.scipy_solver as SS
+
+    where, k, cls = (fault[0], fault[1], {c.__name__: c for c in CLASSES}[fault[2]]) if fault else (None, 0, None)
+    st = {"n": {}, "fired": False, "inside": False, "depth": 0, "exc": None, "calls": []}
+
+    def tick(kd):
+        n = st["n"].get(kd, 0)
+        st["n"][kd] = n + 1
+        if where == kd and n == k and not st["fired"]:
+            st["fired"], st["inside"] = True, st["depth"] > 0
+            st["exc"] = cls("injected fault")
+            raise st["exc"]
+
+    def wrap(f, kd):
+        def g(*a, **kw):
+            tick(kd)
+            return f(*a, **kw)
+        return g
+
+    o_min = SS.minimize
+
+    def p_min(*a, **kw):
+        got = kw.get("x0") if "x0" in kw else (a[1] if len(a) > 1 else None)
+        st["calls"].append({"x0": None if got is None else np.array(got, dtype=float).ravel().tolist(),
+                            "bounds": _norm_bounds(kw.get("bounds")), "method": kw.get("method")})
+        st["depth"] += 1
+        try:
+            tick("entry")
+            if callable(kw.get("fun")):
+                kw["fun"] = wrap(kw["fun"], "obj")
+            for name, kd in (("jac", "grad"), ("hess", "hess")):
+                if callable(kw.get(name)):
+                    kw[name] = wrap(kw[name], kd)
+            cons = kw.get("constraints")
+            if isinstance(cons, (list, tuple)) and cons and all(isinstance(c, dict) for c in cons):
+                kw["constraints"] = [dict(c, **{key: wrap(c[key], kd) for key, kd in (("fun", "con"), ("jac", "jac"))
+                                                if callable(c.get(key))}) for c in cons]
+            res = o_min(*a, **kw)
+            tick("exit")
+            return res
+        finally:
+            st["depth"] -= 1
+
+    saved = []
+    out = {}
+    try:
+        saved.append((SS, "minimize", o_min))
+        SS.minimize = p_min
+        if where is not None and where.startswith("pre:"):
+            owner = _pre_seam(where[4:])
+            if owner is not None and not isinstance(owner, type) and callable(getattr(owner, where[4:])):
+                orig = getattr(owner, where[4:])
+
+                def p_pre(*a, _o=orig, **kw):
+                    tick(where)
+                    return _o(*a, **kw)
+                saved.append((owner, where[4:], orig))
+                setattr(owner, where[4:], p_pre)
+        try:
+            kw = {} if x0 is None else {"x0": np.array(x0, dtype=float)}
+            out["solution"] = P.solve(method=method, **kw)
+        except BaseException as e:  # noqa: BLE001 - the observation *is* the exception
+            out["exception"] = e
+    finally:
+        for obj, name, old in reversed(saved):
+            setattr(obj, name, old)
+    out.update(fired=st["fired"], inside=st["inside"], injected=st["exc"], calls=st["calls"])
+    return out
+
+
+def _start_spec(shape, bounds):
+    spec = dict(START_SHAPES[shape])
+    spec["vars"] = [[v[0], lb, ub, v[3]] for v, (lb, ub) in zip(spec["vars"], bounds)]
+    return spec
+
+
+def start_twin(shape, bounds, method, x0, result=True):
+    """a freshly built Problem with these bounds, solved through the same seam, nothing injected
+    -> (first minimize call | None, ("sol", Solution) | ("exc", class) | None when the solver is not repeatable on it;
+    the second run, which establishes repeatability, is made only when the result is asked for)"""
+    key = ("start", shape, tuple(bounds), method, None if x0 is None else tuple(x0))
+    runs = _BASELINES.setdefault(key, [])
+    while len(runs) < (2 if result else 1):
+        T = base.build_problem(_start_spec(shape, bounds))[0]
+        runs.append(start_solve(T, method, x0))
+    a = runs[0]
+    res = None
+    if result:
+        b = runs[1]
+        if "solution" in a and "solution" in b and same_solution(a["solution"], b["solution"]):
+            res = ("sol", a["solution"])
+        elif "exception" in a and "exception" in b and type(a["exception"]) is type(b["exception"]):
+            res = ("exc", type(a["exception"]))
+    return (a["calls"][0] if a["calls"] else None), res
+
+
+def _close(xs, ys):
+    return xs is not None and ys is not None and len(xs) == len(ys) and \
+        all(abs(x - y) <= 1e-12 * (1 + abs(y)) for x, y in zip(xs, ys))
+
+
+def start_history(data):
+    """data = {shape, steps}; a step is {"op": "bound", "var": i, "lb": …, "ub": …} (the application assigns v.lb /
+    v.ub) or {"op": "solve", "method": m, "x0": None | [..], "fault": None | [where, k, class]}.
+    -> (None | failure dict, number of solves, number of fired faults)"""
+    shape = data["shape"]
+    spec = START_SHAPES[shape]
+    P, vs = base.build_problem(spec)
+    names = [v[0] for v in spec["vars"]]
+    bounds = [(v[1], v[2]) for v in spec["vars"]]
+    order = [names.index(v.name) for v in P.variables]          # the order in which optyx lays the variables out
+    solves = fired = 0
+    with warnings.catch_warnings(), np.errstate(all="ignore"):
+        warnings.simplefilter("ignore")
+        for i, step in enumerate(data["steps"]):
+            if step["op"] == "bound":
+                vs[step["var"]].lb, vs[step["var"]].ub = step["lb"], step["ub"]
+                bounds[step["var"]] = (step["lb"], step["ub"])
+                continue
+            now = [bounds[j] for j in order]
+            hook, limit = warnings.showwarning, sys.getrecursionlimit()
+            out = start_solve(P, step["method"], step.get("x0"), step.get("fault"))
+            solves += 1
+            fired += bool(out["fired"])
+
+            def fail(what, **more):
+                d = {"what": f"step {i} (solve {step['method']} on {shape}, bounds now {dict(zip(names, bounds))}): " + what,
+                     "step": i, "fault_fired": out["fired"]}
+                d.update(more)
+                return d, solves, fired
+            if warnings.showwarning is not hook:
+                return fail("warnings.showwarning after the call is not the hook that was current before it")
+            if sys.getrecursionlimit() != limit:
+                return fail(f"sys.getrecursionlimit() is {sys.getrecursionlimit()} after the call, it was {limit}")
+            twin_call, twin = start_twin(shape, tuple(bounds), step["method"], step.get("x0"), result=not out["fired"])
+            if out["calls"]:
+                call = out["calls"][0]
+                want = documented_start(now) if step.get("x0") is None else [float(t) for t in step["x0"]]
+                if not _close(call["x0"], want):
+                    return fail("the x0 handed to scipy.optimize.minimize is not "
+                                + ("the documented default start for the bounds the variables have now"
+                                   if step.get("x0") is None else "the x0 passed to solve()"),
+                                x0_handed_to_minimize=call["x0"], expected=want,
+                                fresh_problem_hands_over=twin_call and twin_call["x0"])
+                if twin_call is not None and not _close(call["x0"], twin_call["x0"]):
+                    return fail("the x0 handed to scipy.optimize.minimize differs from what a freshly built Problem with "
+                                "the same bounds hands over", x0_handed_to_minimize=call["x0"],
+                                fresh_problem_hands_over=twin_call["x0"])
+                if call["bounds"] is not None and call["bounds"] != [(None if lo is None else float(lo),
+                                                                      None if hi is None else float(hi)) for lo, hi in now]:
+                    return fail("the bounds handed to scipy.optimize.minimize are not the bounds the variables have now",
+                                bounds_handed_to_minimize=call["bounds"], bounds_now=now)
+                if twin_call is not None and (call["bounds"] is None) != (twin_call["bounds"] is None):
+                    return fail("bounds= handed over / withheld unlike for a freshly built Problem")
+            cr = cache_report(P)
+            if cr is not None:
+                return fail("problem caches invalid after the call: " + cr)
+            sol, exc = out.get("solution"), out.get("exception")
+            if out["fired"]:
+                cls = type(out["injected"])
+                if sol is not None:
+                    if sol.status.name != "FAILED":
+                        return fail(f"a solve in which {cls.__name__} was raised returned status {sol.status.name}")
+                    if not out["inside"] or not issubclass(cls, Exception):
+                        return fail(f"{cls.__name__} raised outside the solver call / not an Exception was swallowed")
+                elif not (exc is out["injected"] or (issubclass(cls, Exception) and exc.__cause__ is out["injected"])):
+                    return fail(f"the injected {cls.__name__} surfaced as {type(exc).__name__}: {exc}"[:300])
+            elif twin is not None:
+                if exc is not None:
+                    if not (twin[0] == "exc" and twin[1] is type(exc)):
+                        return fail(f"a solve without a fault raised {type(exc).__name__}: {exc}; a freshly built twin "
+                                    f"with the same bounds does not"[:300])
+                elif twin[0] == "exc":
+                    return fail(f"the solve returned {sol.status.name}; a freshly built twin raises {twin[1].__name__}")
+                elif not same_solution(sol, twin[1]):
+                    return fail("the solve differs from the solve of a freshly built twin with the same bounds (same "
+                                "method, same x0, no faults)",
+                                got=[sol.status.name, dict(sol.values), sol.objective_value],
+                                twin=[twin[1].status.name, dict(twin[1].values), twin[1].objective_value])
+    return None, solves, fired
+
+
+def gen_start_history(rng, i):
+    """history number i: shape, fault seam, kind of the middle part and exception class rotate with i; bounds, k,
+    methods, explicit starts from rng.  Template: [default solves] → a bound is changed → the attempt (fails / is
+    interrupted / gets an explicit x0 / succeeds) → the bound is put back exactly (3 of 4) or moved to a third value →
+    default solve [→ another change → default solve]."""
+    shapes = list(START_SHAPES)
+    shape = shapes[i % len(shapes)]
+    spec = START_SHAPES[shape]
+    nv = len(spec["vars"])
+    wheres = [w for w in START_WHERES if (w not in ("con", "jac") or spec["cons"])]
+    where = wheres[(i // len(shapes)) % len(wheres)]
+    mid = START_MIDS[(i // (len(shapes) * 2) + i) % len(START_MIDS)]
+    pool = [ValueError, FloatingPointError, MemoryError, KeyboardInterrupt, InjectedError, SystemExit, InjectedAbort]
+    cls = pool[(i // 3) % len(pool)] if rng.random() < 0.7 else rng.choice(REAL_CLASSES)
+
+    def method_for(w=None):
+        ms = START_METHODS[shape]
+        if w == "hess":
+            ms = [m for m in ms if m in ("trust-constr", "Newton-CG")] or ms
+        elif w in ("con", "jac"):
+            ms = [m for m in ms if m in ("SLSQP", "trust-constr")] or ms
+        elif rng.random() < 0.85:
+            ms = [m for m in ms if m != "trust-constr"]       # (slow: mostly where its Hessian / callbacks are the point)
+        return rng.choice(ms)
+
+    def new_bounds(old):
+        for _ in range(50):
+            lb, ub = rng.choice(START_LBS), rng.choice(START_UBS)
+            if (lb, ub) != tuple(old) and (lb is None or ub is None or lb < ub):
+                return lb, ub
+        return None, None
+
+    def point(bounds):
+        return [min(max(rng.choice([-1.75, -0.75, 0.125, 0.75, 1.75]), -8.0 if lo is None else lo), 8.0 if hi is None else hi)
+                for lo, hi in bounds]
+
+    def fault(w):
+        k = rng.choice([0, 0, 1, 2, 4]) if w in ("obj", "grad", "con", "jac", "hess") else 0
+        return [w, k, cls.__name__]
+
+    bounds = [(v[1], v[2]) for v in spec["vars"]]
+    steps = []
+    for _ in range(rng.choice([0, 1, 1, 2])):
+        steps.append({"op": "solve", "method": method_for(), "x0": point(bounds) if rng.random() < 0.2 else None,
+                      "fault": None})
+    vi = rng.randrange(nv)
+    old = bounds[vi]
+    new = new_bounds(old)
+    steps.append({"op": "bound", "var": vi, "lb": new[0], "ub": new[1]})
+    bounds[vi] = new
+    m = method_for(where)
+    if mid in ("fault", "two-faults", "fault-other-method"):
+        steps.append({"op": "solve", "method": m, "x0": None, "fault": fault(where)})
+        if mid == "two-faults":
+            steps.append({"op": "solve", "method": method_for(), "x0": None, "fault": fault(rng.choice(["obj", "entry", "grad"]))})
+    elif mid == "fault-x0":
+        steps.append({"op": "solve", "method": m, "x0": point(bounds), "fault": fault(where)})
+    elif mid == "x0-only":
+        steps.append({"op": "solve", "method": m, "x0": point(bounds), "fault": None})
+    else:
+        steps.append({"op": "solve", "method": m, "x0": None, "fault": None})
+    back = old if rng.random() < 0.75 else new_bounds(new)
+    steps.append({"op": "bound", "var": vi, "lb": back[0], "ub": back[1]})
+    bounds[vi] = back
+    steps.append({"op": "solve", "method": method_for() if mid == "fault-other-method" or rng.random() < 0.3 else m,
+                  "x0": None, "fault": None})
+    if rng.random() < 0.35:
+        vj = rng.randrange(nv)
+        nb = new_bounds(bounds[vj])
+        steps.append({"op": "bound", "var": vj, "lb": nb[0], "ub": nb[1]})
+        bounds[vj] = nb
+        steps.append({"op": "solve", "method": method_for(), "x0": None,
+                      "fault": fault(rng.choice(wheres)) if rng.random() < 0.3 else None})
+        if rng.random() < 0.5:
+            steps.append({"op": "solve", "method": method_for(), "x0": None, "fault": None})
+    return {"shape": shape, "steps": steps}
+
+
+def shrink_start(data):
+    """greedy: cut everything after the failing solve, then drop steps / explicit starts as long as it still fails"""
+    import json
+
+    def fails(d):
+        try:
+            return start_history(d)[0]
+        except Exception:  # noqa: BLE001 - a candidate that cannot run is not a smaller failing input
+            return None
+
+    d = json.loads(json.dumps(data))
+    bad = fails(d)
+    if bad is None:
+        return data, None
+    progress = True
+    while progress:
+        progress = False
+        d["steps"] = d["steps"][:bad["step"] + 1]
+        cands = [dict(d, steps=d["steps"][:j] + d["steps"][j + 1:]) for j in range(len(d["steps"]) - 1)]
+        cands += [dict(d, steps=d["steps"][:j] + [dict(s, x0=None)] + d["steps"][j + 1:])
+                  for j, s in enumerate(d["steps"]) if s.get("x0") is not None]
+        for c in cands:
+            b = fails(json.loads(json.dumps(c)))
+            if b is not None:
+                d, bad, progress = c, b, True
+                break
+    return d, bad
+
+
+def start_histories(rep, rng, n, stop_at_first=False, offset=0):
+    for i in range(offset, offset + n):
+        data = gen_start_history(rng, i)
+        bad, solves, fired = start_history(data)
+        rep.evaluations += solves
+        flt = next((s["fault"][0].split(":")[0] for s in data["steps"] if s.get("fault")), "no-fault")
+        k = f"start:{data['shape']}:{flt}"
+        rep.histogram[k] = rep.histogram.get(k, 0) + 1
+        rep.histogram["start:faults-fired"] = rep.histogram.get("start:faults-fired", 0) + fired
+        if fired:
+            rep.nontrivial.add(hash(("start", str(data))))
+        if bad is not None:
+            if not any(f.get("kind_of_case") == "start" for f in rep.oracle_failures):
+                small, b2 = shrink_start(data)
+                if b2 is not None:
+                    b2["shrunk_from"] = data
+                    data, bad = small, b2
+            bad.update({"kind_of_case": "start", "data": data,
+                        "legend": "data.steps run in order on ONE Problem built from START_SHAPES[data.shape] (double-well "
+                                  "objectives): op=bound assigns v.lb / v.ub of variable `var`; op=solve is "
+                                  "P.solve(method[, x0=x0]) with `fault` = [seam, k, class] injected; judged: the x0 / "
+                                  "bounds optyx hands to scipy.optimize.minimize vs the documented default start for "
+                                  "the CURRENT bounds (hand formula, fresh Problem) and the result vs a fresh twin; "
+                                  "see start_history"})
+            rep.oracle_failures.append(bad)
+            if stop_at_first:
+                return
+
+
 def run(ctx) -> core.Report:
     rng = ctx["rng"]
     thorough = ctx["tier"] == "thorough" or ctx["escalate"]
@@ -2161,10 +2565,17 @@ def run(ctx) -> core.Report:
                            "histories in which an earlier solve of the same problem got per-call **kwargs (27 LP kinds, 21 "
                            "NLP kinds: failing / interrupting / overriding) followed by a plain solve judged against the "
                            "hand-computed / direct-linprog optimum, an untouched twin and what linprog / minimize receive; "
+                           "histories on double-well models in which a bound is changed, a solve fails / is interrupted / "
+                           "gets an explicit x0, the bound is put back, and the default-start solve is judged by the x0 / "
+                           "bounds handed to minimize (documented default start for the current bounds) and a fresh twin; "
                            "non-trivial = "
                            "distinct runs in which the fault fired")
     # cheap and independent of the model: first.  A broken build / translation escalates the run to the thorough tier
     # (≈ 10 min): a concrete failing input found here ends it at once
+    start_histories(rep, core.Rng(ctx["seed"] + 20209), 900 if thorough else 64, stop_at_first=ctx["escalate"])
+    if ctx["escalate"] and rep.oracle_failures:
+        rep.notes.append("escalated run stopped at the first failing input (default-start histories)")
+        return rep
     kwargs_histories(rep, core.Rng(ctx["seed"] + 20208), 1200 if thorough else 200, thorough=thorough,
                      stop_at_first=ctx["escalate"])
     if ctx["escalate"] and rep.oracle_failures:
@@ -2192,6 +2603,10 @@ def search(ctx, rep):
     # the mismatching cases along the history dimension: their shape and method, solved again after the application
     # changed the process-global state (cheap: a few seconds)
     # per-call kwargs of an earlier solve (cheap: every kind on every fixed shape, then generated LPs, both routes)
+    # bound changed → failed solve → bound put back → default-start solve (cheap: a few seconds)
+    start_histories(r2, rng, 600, stop_at_first=True, offset=64)
+    if r2.oracle_failures:
+        return r2.oracle_failures[0]
     kwargs_histories(r2, rng, 600, thorough=True, stop_at_first=True, offset=200)
     if r2.oracle_failures:
         return r2.oracle_failures[0]
@@ -2273,6 +2688,10 @@ def replay(payload) -> bool:
     if kind == "kwargs":
         bad, _, tags = kwargs_history(f["data"])
         print(tags, bad)
+        return bad is None
+    if kind == "start":
+        bad, _, _ = start_history(f["data"])
+        print(bad)
         return bad is None
     if kind == "state":
         bad, _, _ = state_history(f["data"])
